@@ -19,7 +19,8 @@ REQUIRED_MONITORS = ["action@SSI dialog(enumerated)", "action@SSI dialog(random)
 ALL_STATES = ["picks in descending frequency order", "same pole picked twice", "deselect-one with >= 2 selected", "deselect-nearest with >= 2 selected", "click without modifier ignored",
               "click outside the axes", "pick on a column without poles", "deselect on empty selection", "modifier released before click"]
 REQUIRED_STATES = ["picks in descending frequency order", "deselect-one with >= 2 selected", "deselect-nearest with >= 2 selected", "click without modifier ignored",
-                   "click outside the axes", "deselect on empty selection", "modifier released before click", "dialog opened with freqlim"]
+                   "click outside the axes", "deselect on empty selection", "modifier released before click", "dialog opened with freqlim",
+                   "deselect-nearest beside the midpoint of two selected frequencies", "same pole picked twice"]
 RULE = ("the real SelFromPlot dialog is constructed with Tk replaced by inert stand-ins and driven by real matplotlib Mouse/Key events dispatched through "
         "the canvas callback registry at pixel positions computed from data coordinates; ALL sequences up to length 3 (quick) / 4 (thorough) over "
         "{shift down, shift up, pick at each of 6 poles of a 3x4 table, deselect-one, deselect-nearest at 2 positions}; random length-6 sequences at "
@@ -365,6 +366,16 @@ def run_random(ctx, case):
         for k in rng.permutation(len(fn))[: int(rng.integers(2, len(fn) + 1))]:
             yy = float(rng.uniform(-40, -1)) if plot == "FDD" else float(rng.integers(max(2, ncol - 7), ncol) + rng.uniform(-0.3, 0.3))
             s.click(1, float(fn[k] + rng.uniform(-0.4, 0.4)), yy)
+        if s.ok and len({p[0] for p in s.model}) >= 2 and rng.random() < 0.5:
+            # deselect-nearest just beside the midpoint between two neighbouring selected frequencies (less than half a line spacing away
+            # from it): the decision must be taken on the click abscissa itself
+            fs_ = sorted({p[0] for p in s.model})
+            k = int(rng.integers(0, len(fs_) - 1))
+            unit = float(np.asarray(algo.result.freq)[1]) if plot == "FDD" else 0.2 * (fs_[k + 1] - fs_[k])
+            x = 0.5 * (fs_[k] + fs_[k + 1]) + float(rng.choice([-1, 1]) * rng.uniform(0.04, 0.46)) * unit
+            if fs_[k] < x < fs_[k + 1]:
+                s.click(2, x, -10.0 if plot == "FDD" else 3.0)
+                ctx.state("deselect-nearest beside the midpoint of two selected frequencies")
         if s.ok and rng.random() < 0.8:
             s.click(int(rng.choice([2, 2, 3])), float(rng.choice(fn) + rng.uniform(-1, 1)), -10.0 if plot == "FDD" else 3.0)
         for _ in range(4):
